@@ -11,7 +11,8 @@ constraint form as list element / field / alternative, lists in lists with diffe
 each level, enumerations with 1..40 values and markers anywhere. The shapes matter for changes on the
 compiler side (descriptor constants emitted by the code generator), which the runtime cannot see.
 
-usage: tools/gen_zoo.py <letter> <python-seed> <count> [proto]      e.g. tools/gen_zoo.py a 20260926 45
+usage: tools/gen_zoo.py <letter> <python-seed> <count> [proto] [tags]      e.g. tools/gen_zoo.py a 20260926 45
+  proto: flag the module for the protobuf checks; tags: explicit tags also on CHOICE alternatives / SEQUENCE components
 """
 import random, sys
 
@@ -25,6 +26,7 @@ class G:
     def __init__(self, seed, prefix):
         self.r = random.Random(seed)
         self.proto = False
+        self.tag_more = False
         self.prefix = prefix
         self.named = []       # (name, kind) of earlier top-level types; kind in struct/choice/enum/list/prim
         self.enums = {}       # name -> [values]
@@ -190,6 +192,8 @@ class G:
         n = r.choice([1, 1, 2, 3, 3, 4, 5, 6, 8, 12]) if depth == 0 else r.choice([1, 2, 3, 4])
         marker = None if r.randrange(5) < 2 else r.randrange(0, n + 1)
         tagged = head == "SET" and r.randrange(2) == 0
+        if self.tag_more and not tagged:
+            tagged = r.randrange(3) == 0   # explicit, scrambled tags on SEQUENCE components as well
         tags = r.sample(range(0, 40), n)
         parts = []
         zero, amp, nested = marker is None, False, False
@@ -221,10 +225,18 @@ class G:
         marker = None if r.randrange(2) == 0 else r.randrange(1, n + 1)
         parts = []
         zero, amp, nested = marker is None and n == 1, False, False
+        # explicit tags on the alternatives, out of canonical order and of mixed classes (asn1rs numbers the
+        # alternatives in definition order; writer and reader must agree on that whatever the tags say)
+        tagged = self.tag_more and r.randrange(2) == 0
+        tags = r.sample(range(0, 40), n) if tagged else []
         for i in range(n):
             if marker == i:
                 parts.append("...")
             t, _ = self.field_type(depth)
+            if tagged:
+                t = f"[{r.choice(['', '', 'APPLICATION ', 'PRIVATE '])}{tags[i]}] {t}"
+                self.info[t] = self.info[t.split("] ", 1)[1]]
+                self.nested[t] = self.nested.get(t.split("] ", 1)[1], False)
             zero, amp = zero and self.info[t][0], amp or self.info[t][1]
             nested = nested or self.nested.get(t, False)
             parts.append(f"a{i} {t}")
@@ -259,12 +271,13 @@ class G:
 def main():
     letter, seed, count = sys.argv[1], int(sys.argv[2]), int(sys.argv[3])
     g = G(seed, "R" + letter)
-    g.proto = len(sys.argv) > 4 and sys.argv[4] == "proto"
+    g.proto = "proto" in sys.argv[4:]
+    g.tag_more = "tags" in sys.argv[4:]
     for _ in range(count):
         g.top()
     module = "ZooRand" + letter.upper()
     text = f"-- generated by tools/gen_zoo.py {letter} {seed} {count} (do not edit; generate a new file instead)\n"
-    if len(sys.argv) > 4 and sys.argv[4] == "proto":
+    if "proto" in sys.argv[4:]:
         text += "-- @file: proto\n"
     text += f"{module} DEFINITIONS AUTOMATIC TAGS ::= BEGIN\n" + "\n".join(g.lines) + "\nEND\n"
     import os
